@@ -812,7 +812,7 @@ func (fcx *frameChecker) implMethods(key string) []string {
 		if t := fcx.w.lookupType(key[:i]); t != nil {
 			if iface, ok := t.Underlying().(*types.Interface); ok && fcx.w.inRepo(t.(*types.Named).Obj().Pkg()) {
 				name := key[i+1:]
-				for _, T := range fcx.w.implementers(iface, typeKey(t)) {
+				for _, T := range fcx.w.implementers(iface, typeKey(t), t) {
 					n, ok := derefNamed(T)
 					if !ok {
 						continue
